@@ -272,6 +272,7 @@ struct State {
     log: Rc<EvalLog>,
     optimizers: Vec<(u64, GradientDescent)>,
     costs: Vec<(String, CostFunction)>,
+    quiet: bool,
 }
 
 impl State {
@@ -354,6 +355,7 @@ fn main() {
         log: Rc::new(EvalLog { entries: RefCell::new(vec![]), budget: Cell::new(0) }),
         optimizers: vec![],
         costs: vec![],
+        quiet: false,
     };
     for line in f.lines() {
         let line = line.unwrap();
@@ -421,6 +423,9 @@ fn run_step(st: &mut State, step: &Value) -> Value {
             st.optimizers.clear();
             st.costs.clear();
             st.last_cmp = false;
+            // a quiet case: the harness looks at nothing between the steps (no gradient() / values() calls of its own)
+            // except on steps marked "obs" - what the program does must not depend on being watched
+            st.quiet = step.get("quiet").and_then(|q| q.as_bool()).unwrap_or(false);
         }
         // ---- construction
         "leaf" => {
@@ -741,6 +746,11 @@ fn run_step(st: &mut State, step: &Value) -> Value {
     // the code under test, so a panic in them is recorded, not fatal
     let mut live = vec![];
     let mut obs_panic = false;
+    if st.quiet && !step.get("obs").and_then(|o| o.as_bool()).unwrap_or(false) {
+        ev.insert("noobs".into(), json!(true));
+        ev.insert("live".into(), Value::Array(live));
+        return Value::Object(ev);
+    }
     for (h, a) in st.hs.iter() {
         match guarded!(observe(a, *h, with_grads)) {
             Some(o) => live.push(o),
